@@ -71,6 +71,18 @@ def project(tid, events):
     def D(d):
         return "<none>" if d is None else str(d)
 
+    tasks = {}
+
+    def W(e):
+        """who and where: the task (renumbered) and its current context (a component context counts as the context it is a view of)"""
+        cur = e.get("cur", -1)
+        while cur in view:
+            cur = view[cur]
+        own = e.get("ctx")
+        while own in view:
+            own = view[own]
+        return {"task": tasks.setdefault(e.get("task", 0), len(tasks) + 1), "cur": 0 if cur == 0 else ctx.get(cur, -1), "cc": ctx.get(own, -1)}
+
     for e in events:
         if e["ev"] == "res.event" and e["during"]:
             by_call[e["during"]].append(e)
@@ -148,13 +160,13 @@ def project(tid, events):
                for x in by_call.get(e.get("call"), [])]
         r = RESULT.get(e.get("r"), "other")
         if ev == "ctx.new":
-            out.append({"ev": "new", "c": c, "p": ctx.get(e["parent"], 0), "post": post})
+            out.append({"ev": "new", "c": c, "p": ctx.get(e["parent"], 0), "post": post, **W(e)})
         elif ev == "ctx.enter":
-            out.append({"ev": "enter", "c": c, "r": r if r in ("ok", "RuntimeError") else "other", "post": post})
+            out.append({"ev": "enter", "c": c, "r": r if r in ("ok", "RuntimeError") else "other", "post": post, **W(e)})
         elif ev == "ctx.exit.begin":
             out.append({"ev": "exit.begin", "c": c})
         elif ev == "ctx.exit.end":
-            out.append({"ev": "exit.end", "c": c, "r": r, "post": post})
+            out.append({"ev": "exit.end", "c": c, "r": r, "post": post, **W(e)})
         elif ev == "add_resource":
             ts = [T(t) for t in e["types"]]
             flaw = "none" if (e["types_valid"] and not e["value_none"] and e["cb_callable"] and NAME_OK.fullmatch(e["name"])) else "badname"
@@ -162,7 +174,7 @@ def project(tid, events):
                 outside("too-many-types")
                 continue
             out.append({"ev": "add", "c": c, "ts": ts, "n": N(e["name"]), "desc": D(e["desc"]), "flaw": flaw, "vid": V(e["vid"]),
-                        "r": r if r in ("ok", "RuntimeError", "Invalid", "ResourceConflict") else "other", "evs": evs, "post": post})
+                        "r": r if r in ("ok", "RuntimeError", "Invalid", "ResourceConflict") else "other", "evs": evs, "post": post, **W(e)})
         elif ev == "add_factory":
             tids = e["types"]
             flaw = "none" if (tids and -1 not in tids and NAME_OK.fullmatch(e["name"])) else "badname"
@@ -171,20 +183,20 @@ def project(tid, events):
                 outside("too-many-types")
                 continue
             out.append({"ev": "addfac", "c": c, "ts": ts, "n": N(e["name"]), "desc": D(e["desc"]), "flaw": flaw, "async": bool(e["coroutinefunction"]),
-                        "fid": V(e.get("fid", 0)), "r": r if r in ("ok", "RuntimeError", "Invalid", "ResourceConflict") else "other", "evs": evs, "post": post})
+                        "fid": V(e.get("fid", 0)), "r": r if r in ("ok", "RuntimeError", "Invalid", "ResourceConflict") else "other", "evs": evs, "post": post, **W(e)})
         elif ev == "get":
             t = T(e["type"])
             if t is None or not isinstance(e["name"], str):
                 outside("too-many-types")
                 continue
             out.append({"ev": "get", "c": c, "t": t, "n": N(e["name"]), "api": e["api"], "opt": bool(e["opt"]), "vid": V(e["vid"]) if "vid" in e else 0,
-                        "r": r if r in ("val", "None", "ResourceNotFound", "AsyncResourceError", "RuntimeError") else "other", "evs": evs, "post": post})
+                        "r": r if r in ("val", "None", "ResourceNotFound", "AsyncResourceError", "RuntimeError") else "other", "evs": evs, "post": post, **W(e)})
         elif ev == "get_all":
             t = T(e["type"])
             if t is None:
                 outside("too-many-types")
                 continue
-            out.append({"ev": "getall", "c": c, "t": t, "r": "ok" if r == "ok" else "other", "found": [[N(x[0]), V(x[1])] for x in e.get("found", [])], "post": post})
+            out.append({"ev": "getall", "c": c, "t": t, "r": "ok" if r == "ok" else "other", "found": [[N(x[0]), V(x[1])] for x in e.get("found", [])], "post": post, **W(e)})
         if len(names) > MAX_NAMES:
             out[-1] = {"ev": "outside", "reason": "too-many-names"}
     if not out:
@@ -192,7 +204,7 @@ def project(tid, events):
     return {"id": tid, "events": out}
 
 
-PROPS = ("C01", "C02", "C03", "C04", "C08", "C13", "C14", "C18")
+PROPS = ("C01", "C02", "C03", "C04", "C08", "C12", "C13", "C14", "C18")
 
 
 def verdicts():
